@@ -22,6 +22,26 @@ type Check struct {
 	// OtherGOOS lists additional GOOS values analysed in the thorough tier with RunGOOS.
 	OtherGOOS []string
 	RunGOOS   func(p *kit.Program, r *kit.Report, goos string)
+	// SelfTests are checker self-tests run in the thorough tier: source variants applied
+	// through the loader's overlay (nothing is written to disk, /repo is not copied).
+	SelfTests []SelfTest
+}
+
+// Edit is one textual substitution in a repository file (path relative to the repo root).
+// Old must occur exactly once in the file, otherwise the variant is skipped (it tests the
+// checker, not the repository).
+type Edit struct {
+	File     string
+	Old, New string
+}
+
+// SelfTest is a variant of the source that must (Mutant) make the named rule report a
+// violation, or (Rewrite: ExpectRule == "") must leave the check silent.
+type SelfTest struct {
+	Name       string
+	Edits      []Edit
+	ExpectRule string // e.g. "C01.R1"; "" = behaviour-preserving rewrite, must stay silent
+	ExpectKey  string // optional substring of the violated obligation's key
 }
 
 var registry = map[string]*Check{}
